@@ -1,11 +1,11 @@
 """C18 (unit C18str) — mfuse::str behaves like independent byte strings.
 
-Default generation stays inside the alphabet of the theorem (Spec.pre): the excluded
-operations are genuine defects of the code, each pinned by a `..._refuted` theorem and by a
-witness below that is re-run against the implementation on every check.
-VERIF_C18STR_FULL=1 generates over the whole alphabet (resize/reserve/assign, self-append,
-appends of nothing to nothing, operator[] / tolower on empty strings) and compares the
-implementation with the SPECIFICATION: on the current tree that reports the defects."""
+Default generation stays inside the alphabet of the theorem (Spec.pre): the whole alphabet
+under the genuine preconditions (tolower/toupper/non-const operator[] need storage, C-string
+operations need a string without 0 bytes).  What is outside is pinned by a `..._refuted`
+theorem and by a witness below that is re-run against the implementation on every check.
+VERIF_C18STR_FULL=1 generates without the preconditions and compares the implementation with
+the SPECIFICATION (the "model=" of a reported disagreement is then the specification)."""
 import glob
 import itertools
 import os
@@ -24,50 +24,66 @@ def _lit(w):
     return "" if w == "_" else w
 
 
+def _clit(t):
+    return t.split("\0")[0]
+
+
 class Abs:
-    """python mirror of Spec.spec_step / Spec.pre (only used to stay inside the alphabet and to aim
-    the generators; the driver re-checks `safe` with the extracted Coq function)"""
+    """python mirror of Spec.spec_step / Spec.has_step / Spec.pre (only used to stay inside the
+    alphabet and to aim the generators; the driver re-checks `safe` with the extracted Coq function)"""
 
     def __init__(self, nv):
         self.v = [""] * nv
+        self.has = [False] * nv
 
     def pre(self, op):
         w = op.split()
         c, a = w[0], int(w[1])
         v = self.v
-        if c in ("AL", "PL"):
-            return not (v[a] == "" and _lit(w[2]) == "")
-        if c == "PC":
-            return not (v[a] == "" and int(w[2]) == 0)
+        nonul = "\0" not in v[a]
+        if c in ("AL", "PL", "PC", "AH", "CL", "MI", "DE", "RS", "RV"):
+            return nonul
         if c in ("AS", "PS"):
-            b = int(w[2])
-            return a != b and not (v[a] == "" and v[b] == "")
+            return nonul and "\0" not in v[int(w[2])]
+        if c == "AC":
+            return "\0" not in v[int(w[2])]
         if c == "SC":
-            return v[a] != "" and int(w[3]) != 0
+            return self.has[a] and nonul and int(w[3]) != 0
         if c in ("LO", "UP"):
-            return v[a] != ""
-        if c in ("RS", "RV", "AN"):
-            return False
+            return self.has[a] and nonul
         return True
 
     def step(self, op):
         w = op.split()
         c, a = w[0], int(w[1])
-        v = self.v
+        v, has = self.v, self.has
         if c == "SL":
             v[a] = _lit(w[2])
-        elif c in ("CP", "AC"):
+            has[a] = v[a] != ""
+        elif c == "CP":
             v[a] = v[int(w[2])]
+            has[a] = has[int(w[2])]
+        elif c == "AC":
+            v[a] = _clit(v[int(w[2])])
+            has[a] = v[a] != ""
         elif c == "CC":
             if int(w[2]) != a:
                 v[a] = v[int(w[2])]
+                has[a] = has[int(w[2])]
         elif c in ("AL", "PL"):
             v[a] += _lit(w[2])
-        elif c in ("PC", "AH"):
+            has[a] = True
+        elif c == "PC":
             if int(w[2]):
                 v[a] += chr(int(w[2]))
+            has[a] = True
+        elif c == "AH":
+            if int(w[2]):
+                v[a] += chr(int(w[2]))
+                has[a] = True
         elif c in ("AS", "PS"):
             v[a] += v[int(w[2])]
+            has[a] = True
         elif c == "SC":
             i = int(w[2])
             if i < len(v[a]):
@@ -82,6 +98,7 @@ class Abs:
             v[a] = v[a][:max(0, len(v[a]) - 1)]
         elif c == "CR":
             v[a] = ""
+            has[a] = False
         elif c == "LO":
             v[a] = v[a].lower()
         elif c == "UP":
@@ -89,8 +106,12 @@ class Abs:
         elif c == "RS":
             n = int(w[2])
             v[a] = v[a][:n] if n <= len(v[a]) else v[a] + "\0" * (n - len(v[a]))
+            has[a] = True
+        elif c == "RV":
+            has[a] = True
         elif c == "AN":
             v[a] = _lit(w[2])
+            has[a] = True
 
 
 def safe_hist(nv, ops):
@@ -102,32 +123,21 @@ def safe_hist(nv, ops):
     return True
 
 
-# the refuted part of the alphabet: (name, nv, ops, what the byte-string specification says, what happens)
+# what is still outside the theorem: (name, nv, ops, what the byte-string specification says, what happens)
 WITNESSES = [
-    ("resize_grow", 1, ["SL 0 hello", "RS 0 8"],
-     "resize(8) of \"hello\" keeps the text (length 8)", "c_str() is \"\" while length() is 8: the reallocated strdata has len = 0, so the zero fill starts at 0"),
-    ("resize_shrink", 1, ["SL 0 hello", "RS 0 3"],
-     "resize(3) of \"hello\" is \"hel\"", "c_str() stays \"hello\" while length() is 3: no terminator is stored when shrinking"),
-    ("resize_null", 1, ["RS 0 0"],
-     "resize(0) of an empty string is a no-op", "null m_data is dereferenced (EnsureAlloced(1) allocates nothing)"),
-    ("reserve_len", 1, ["SL 0 hello", "RV 0 20"],
-     "reserve changes nothing observable", "length() becomes 0 while c_str() is \"hello\": the reallocated strdata has len = 0 (and alloced = 0)"),
-    ("reserve_then_append", 1, ["SL 0 hello", "RV 0 20", "AL 0 X"],
-     "\"helloX\"", "heap buffer overflow: append sizes the new storage from length() = 0"),
-    ("assign_null", 1, ["AN 0 _"],
-     "assign(\"\", 0) of an empty string is a no-op", "null m_data is dereferenced"),
-    ("assign_after_growth", 1, ["SL 0 hi", "AL 0 hello_world", "AN 0 x"],
-     "\"x\"", "heap buffer overflow: alloced is 0 after a reallocation, so assign reallocates 2 bytes and copies the old 13-byte text into them"),
-    ("append_empty_to_empty", 1, ["AL 0 _"],
-     "append(\"\") to an empty string is a no-op", "null m_data is dereferenced"),
-    ("append_str_empty_to_empty", 2, ["AS 0 1"],
-     "appending an empty string to an empty string is a no-op", "null m_data is dereferenced"),
-    ("self_append", 1, ["SL 0 ab", "AS 0 0"],
-     "\"abab\"", "heap buffer overflow: the source is read from the destination buffer after the terminator has been overwritten"),
-    ("index_shared_empty", 2, ["SL 0 abc", "MI 0 3", "CP 1 0", "SC 0 0 65"],
-     "operator[] on a zero-length string yields the dummy", "null m_data is dereferenced in EnsureDataWritable (EnsureAlloced(1) allocates nothing for the private copy)"),
-    ("tolower_shared_empty", 2, ["SL 0 abc", "CL 0 0", "CP 1 0", "LO 0"],
-     "tolower of a zero-length string is a no-op", "null m_data is dereferenced in EnsureDataWritable"),
+    ("tolower_without_storage", 1, ["LO 0"],
+     "tolower of an empty string is a no-op", "null m_data is dereferenced: the code's own asserted precondition (assert(m_data))"),
+    ("index_without_storage", 1, ["SC 0 0 65"],
+     "operator[] beyond the length yields the dummy", "null m_data is dereferenced: the code's own asserted precondition (assert(m_data))"),
+    ("realloc_after_resize", 1, ["RS 0 3", "RV 0 20", "SC 0 0 65"],
+     "\"A\" (length 3)", "EnsureAlloced(keepold) copies the text up to the first 0 byte but keeps len = 3: the other bytes are uninitialised; "
+     "after a[0] = 'A' c_str() has no terminator inside the storage (heap over-read)"),
+    ("unshare_after_resize", 2, ["RS 0 3", "CP 1 0", "SC 0 1 66", "SC 0 0 65"],
+     "\"AB\" (length 3)", "EnsureDataWritable copies with copyn up to the first 0 byte: the private copy holds uninitialised bytes (heap over-read)"),
+    ("append_after_resize", 1, ["RS 0 8", "AL 0 XY"],
+     "c_str() \"\" (8 zero bytes, then XY), length 10", "c_str() is \"XY\" with length 10: cat continues at the first 0 byte, not at length()"),
+    ("assign_own_cstr_after_resize", 1, ["SL 0 hello", "RS 0 8", "AC 0 0"],
+     "\"hello\" with length 5", "a = a.c_str() is punted (same pointer): the length stays 8"),
 ]
 
 
@@ -145,17 +155,17 @@ class C18str(vlib.HistoryProp):
         return ["bytes 1..127 (char signedness and the C locale do not matter); no 0 byte is stored through operator[]",
                 "sizes do not wrap around size_t",
                 "memory returned by the allocator is filled with '?' by an IMemoryManager installed by the harness, as in the model",
-                "the theorem covers the alphabet Spec.pre: no resize/reserve/assign(text,n), no self-append, no append of nothing to an empty string, "
-                "non-const operator[] / tolower / toupper only on non-empty strings (each exclusion is a reported defect with a _refuted theorem)",
+                "the theorem covers the whole alphabet under Spec.pre: non-const operator[] / tolower / toupper only on strings that have storage (the code asserts m_data), "
+                "C-string operations (appends, CapLength, -=, operator[] write, tolower/toupper, resize, reserve, v = w.c_str()) only on strings without 0 bytes "
+                "(a string holds 0 bytes only between a growing resize() and its next assignment); what is outside is pinned by _refuted theorems and witnesses",
                 "reference counts / frees are checked by AddressSanitizer in the harness, the theorem is about contents"]
 
     # ---- generation -----------------------------------------------------------------
     CORE = ["SL 0 Hello", "SL 0 _", "CP 1 0", "CP 0 1", "AL 0 XY", "AL 1 _", "AH 0 33", "AS 1 0",
-            "CL 0 3", "MI 0 2", "SC 0 1 74", "CR 0"]
+            "CL 0 3", "MI 0 2", "SC 0 1 74", "CR 0", "RS 0 2", "AS 0 0"]
     MORE = ["CP 0 0", "AS 0 1", "CL 1 0", "MI 1 100", "LO 1", "UP 0", "AC 1 0", "AC 0 0", "CC 1 0", "PL 1 a",
-            "CP 2 0", "AL 2 Q"]
-    CORE6 = ["SL 0 Hello", "CP 1 0", "CP 0 1", "AL 0 XY", "AS 1 0", "CL 0 3", "SC 1 1 74", "CR 0", "MI 0 2", "AH 1 33"]
-    BAD = ["RS 0 8", "RS 0 2", "RS 1 0", "RV 0 20", "RV 1 1", "AN 0 x", "AN 1 _", "AS 0 0", "AL 0 _"]
+            "CP 2 0", "AL 2 Q", "RS 0 8", "RS 1 0", "RV 0 20", "RV 1 1", "AN 0 x", "AN 1 _", "AL 0 _"]
+    CORE6 = ["SL 0 Hello", "CP 1 0", "CP 0 1", "AL 0 XY", "AS 1 0", "CL 0 3", "SC 1 1 74", "CR 0", "RS 0 7", "AS 0 0"]
 
     def enum(self, alpha, n, out, origin, nv=3):
         for tup in itertools.product(alpha, repeat=n):
@@ -199,7 +209,7 @@ class C18str(vlib.HistoryProp):
                 op = "%s %d" % (rng.choice(["LO", "UP"]), v)
             else:
                 op = "CM %d %d" % (v, w)
-            if FULL and rng.random() < 0.08:
+            if rng.random() < 0.10:
                 op = rng.choice(["RS %d %d" % (v, rng.choice([0, 1, n, n + 1, n + 5, max(0, n - 2)])),
                                  "RV %d %d" % (v, rng.choice([0, 1, n, n + 9])), "AN %d %s" % (v, rng.choice(LITS))])
             if not FULL and not a.pre(op):
@@ -215,14 +225,14 @@ class C18str(vlib.HistoryProp):
             lines = [l.strip() for l in open(p) if l.strip() and not l.startswith("#")]
             cases.append(Case("c_" + os.path.basename(p)[:-4], lines[0], lines[1:], "corpus"))
         ex = []
-        full = self.CORE + self.MORE + (self.BAD if FULL else [])
+        full = self.CORE + self.MORE
         if tier == "quick":
             self.enum(full, 3, ex, "exhaustive-len3")
             self.enum(self.CORE, 4, ex, "exhaustive-core-len4")
             walks = [(4, 60, 300), (4, 400, 20), (3, 30, 300), (4, 3000, 2)]
         else:
             self.enum(full, 4, ex, "exhaustive-len4")
-            self.enum(self.CORE + self.MORE[:4], 5, ex, "exhaustive-16-len5")
+            self.enum(self.CORE, 5, ex, "exhaustive-core-len5")
             self.enum(self.CORE6, 6, ex, "exhaustive-core10-len6")
             walks = [(4, 100, 5000), (4, 1000, 200), (3, 40, 5000), (4, 10000, 10)]
         cases += ex
@@ -305,12 +315,14 @@ def check_witnesses(res):
 
 
 def check(res, tier, seed):
-    res.cov["rule"] += ("corpus first (regressions of 091996b and eb9c208); every history of length 3 (quick) / 4 (thorough) over a 24-letter alphabet "
-                        "on 3 variables (literal/empty assignment, copies in both directions, self-assignment, copy construction, v = w.c_str(), "
-                        "append of a literal / of nothing / of a char / of the other string, CapLength, -=, operator[] write, tolower/toupper, clear), "
-                        "length 4 (quick) over its 12-letter core, length 5 (thorough) over 16 letters and length 6 (thorough) over a 10-letter core, restricted to the alphabet of the theorem (Spec.pre); "
-                        "seeded random walks over 3-4 variables and 9 literals aimed at the boundaries (index = len, cap = len +- 1, -= len, shared/unshared, "
-                        "after a reallocation); the refuted witnesses are re-run against the implementation; "
+    res.cov["rule"] += ("corpus first (regressions of 091996b, eb9c208 and one file per defect fixed by 913439b, b034b9f, d63a379, c0a3b58); every history of "
+                        "length 3 (quick) / 4 (thorough) over a 33-letter alphabet on 3 variables (literal/empty assignment, copies in both directions, "
+                        "self-assignment, copy construction, v = w.c_str(), append of a literal / of nothing / of a char / of the other string / of itself, "
+                        "CapLength, -=, operator[] write, tolower/toupper, clear, resize up and down and to 0, reserve, assign(text, n)), "
+                        "length 4 (quick) / 5 (thorough) over its 14-letter core and length 6 (thorough) over a 10-letter core, restricted to the "
+                        "preconditions of the theorem (Spec.pre); seeded random walks over 3-4 variables and 9 literals aimed at the boundaries "
+                        "(index = len, cap = len +- 1, -= len, resize to len +- 1, shared/unshared, after a reallocation); the witnesses of the _refuted "
+                        "theorems are re-run against the implementation; "
                         "non-trivial = two variables showed the same non-empty text (sharing) and the history has >= 3 distinct observations")
     vlib.history_check(res, HP, tier, seed)
     if not FULL:
